@@ -5,7 +5,7 @@ import cybuild
 
 TITLE = "Emitted C string literals denote exactly the original bytes"
 EXTRACTS = ["CStr"]
-RULE = ("byte strings: every string of length <= 2 (quick) / <= 3 (thorough) at the default limit; every string "
+RULE = ("byte strings: every string of length <= 2 (quick) / <= 3 (thorough: model==implementation on all 2^24, gcc on 64 of the 256 first bytes) at the default limit; every string "
         "of length <= 4 (quick) / <= 5 (thorough) over the alphabet {\\\\ ? 0 \" LF a 0x80} at limits 6..10; adversarial "
         "long strings (runs of backslashes, '?', digits after NUL/octal escapes, quotes, high bytes) placed so that "
         "the escaped text crosses a multiple of the limit within +-6 characters, limits 6..4010; random special-heavy "
@@ -67,6 +67,13 @@ for pre, depth, limit in spec.get("sweeps", []):
     hh.update(("\n".join(buf) + "\n").encode("latin-1"))
     sw.append(hh.hexdigest())
 out["sweeps"] = sw
+for pre, depth, limit, path in spec.get("cfiles", []):
+    pre = bytes.fromhex(pre)
+    with open(path, "w", encoding="latin-1") as f:
+        f.write(spec["c_head"])
+        for tup in itertools.product(range(256), repeat=depth):
+            f.write("E(%s),\n" % lit(pre + bytes(tup), limit))
+        f.write(spec["c_tail"])
 print(json.dumps(out))
 '''
 
@@ -77,16 +84,18 @@ C_TAIL = ("};\nint main(void){ unsigned long i; for(i=0;i<sizeof(T)/sizeof(T[0])
 HEAD_LINES = C_HEAD.count("\n")
 
 
-def cc_literals(workdir, name, entries, flags, compiler="gcc", pre_decls=None):
-    """entries: C expressions of type 'array of char' (string literals or array names), one per line.
+def cc_literals(workdir, name, entries, flags, compiler="gcc", pre_decls=None, ready=False):
+    """entries: C expressions of type 'array of char' (string literals or array names), one per line
+    (ready=True: the file <name>.c was already written by the implementation driver).
     Returns (list of bytes | None, error text, failing entry index | None)."""
     src = os.path.join(workdir, name + ".c")
     decl = "".join(pre_decls or [])
-    with open(src, "w", encoding="latin-1") as f:
-        f.write(decl + C_HEAD)
-        for e in entries:
-            f.write("E(%s),\n" % e)
-        f.write(C_TAIL)
+    if not ready:
+        with open(src, "w", encoding="latin-1") as f:
+            f.write(decl + C_HEAD)
+            for e in entries:
+                f.write("E(%s),\n" % e)
+            f.write(C_TAIL)
     exe = os.path.join(workdir, name + ".exe")
     p = subprocess.run([compiler] + flags + ["-O0", "-w", src, "-o", exe], capture_output=True, text=True,
                        errors="replace", timeout=900)
@@ -257,7 +266,7 @@ def run(ctx):
     if not quick:
         sweeps = [("%02x" % p, 2, 2000) for p in range(256)]
         ctx.extra["exhaustive_domains"].append("all 16777216 byte strings of length 3, limit 2000 "
-                                               "(model == implementation by digest per first byte; model reads back; gcc)")
+                                               "(model text == implementation text by digest per first byte; the model's c_read reads every one back)")
 
     lap("cases generated")
     # ------------------------------------------------------------------ implementation
@@ -435,24 +444,48 @@ def run(ctx):
             ctx.count("exhaustive=3/model+impl-digest", int(cnt), distinct_sigs=[("sweep3", s[0])])
 
         lap("length-3 model/impl digests done")
-        # gcc over all length-3 strings: literal text produced by the implementation, 256 files
+        # gcc over a stratified quarter of the length-3 strings (every special first byte + random others):
+        # the implementation driver writes one .c file per first byte, gcc compiles and runs it
+        special_first = [0x00, 0x01, 0x09, 0x0a, 0x0d, 0x1f, 0x20, 0x22, 0x27, 0x30, 0x31, 0x37, 0x38, 0x39, 0x3f,
+                         0x41, 0x5c, 0x61, 0x6e, 0x78, 0x7e, 0x7f, 0x80, 0xff]
+        others = [p for p in range(256) if p not in special_first]
+        firsts = sorted(special_first + rng.sample(others, 40))
+        rr = cybuild.run_script(IMPL, ctx.workdir, {"c_head": C_HEAD, "c_tail": C_TAIL, "cfiles": [
+            ["%02x" % p, 2, 2000, os.path.join(ctx.workdir, "s3_%02x.c" % p)] for p in firsts]}, timeout=3000)
+        if rr["json"] is None:
+            ctx.corr_break("implementation run", "length-3 C files", (rr["err"] or rr["out"])[-800:], "files written")
+            firsts = []
+        lap("length-3 C files written")
+
         def gcc_prefix(p):
             cases = [(bytes((p,) + t), 2000) for t in itertools.product(range(256), repeat=2)]
-            rr = cybuild.run_script(IMPL, os.path.join(ctx.workdir, "p%02x" % p),
-                                    {"lits": [[b.hex(), 2000] for b, _ in cases]}, timeout=600)
-            if rr["json"] is None:
-                ctx.corr_break("implementation run", "prefix %02x" % p, rr["err"][-500:], "results")
-                return
-            check_batch("s3_%02x" % p, cases, rr["json"]["lits"], flags_main, "gcc", None, "lit3")
-            shutil.rmtree(os.path.join(ctx.workdir, "p%02x" % p), ignore_errors=True)
+            name = "s3_%02x" % p
+            got, err, _ = cc_literals(ctx.workdir, name, [None] * len(cases), flags_main, "gcc", None, ready=True)
+            if got is None:
+                # rare path: re-obtain the texts and let check_batch bisect
+                r2 = cybuild.run_script(IMPL, os.path.join(ctx.workdir, "p%02x" % p),
+                                        {"lits": [[b.hex(), 2000] for b, _ in cases]}, timeout=600)
+                if r2["json"] is None:
+                    ctx.fail("cc_batch_failed", {"batch": name}, err[:600], "compiles")
+                else:
+                    check_batch(name + "r", cases, r2["json"]["lits"], flags_main, "gcc", None, "lit3")
+            else:
+                nf = 0
+                for (b, l), g in zip(cases, got):
+                    if g != b and nf < 3:
+                        nf += 1
+                        ctx.fail(classify(b, l), {"bytes": b.hex(), "limit": l, "kind": "lit3", "cc": "gcc -std=c11"},
+                                 g.hex(), b.hex())
             try:
-                os.unlink(os.path.join(ctx.workdir, "s3_%02x.c" % p))
+                os.unlink(os.path.join(ctx.workdir, name + ".c"))
             except OSError:
                 pass
         with cf.ThreadPoolExecutor(max_workers=8) as ex:
-            list(ex.map(gcc_prefix, range(256)))
+            list(ex.map(gcc_prefix, firsts))
         lap("length-3 gcc done")
-        ctx.count("exhaustive=3/gcc", 256 ** 3, distinct_sigs=[("gcc3", p) for p in range(256)])
+        ctx.count("exhaustive=3/gcc(64 first bytes)", len(firsts) * 65536, distinct_sigs=[("gcc3", p) for p in firsts])
+        ctx.extra["exhaustive_domains"].append("gcc: all length-3 strings with first byte in %d values (%s)" % (
+            len(firsts), ",".join("%02x" % p for p in firsts)))
 
 
 def replay(ctx, obj):
